@@ -9,6 +9,7 @@ import (
 	"encoding/json"
 	"fmt"
 	"os"
+	"regexp"
 	"runtime"
 	"sort"
 	"strconv"
@@ -134,7 +135,14 @@ func envU64(name string, def uint64) uint64 {
 	return def
 }
 
-// LoadFindings reads known_findings.jsonl (lines starting with '#' ignored).
+// LoadFindings reads the known-findings file. Line formats:
+//
+//	# comment
+//	fixed: property=<id> <commit> <what failed>
+//	finding: property=<id> rule=<rule> sig="<signature>" <what fails>
+//
+// Only "finding:" lines suppress anything (exact rule+signature match);
+// "fixed:" lines are a record and suppress nothing.
 func LoadFindings(path string) ([]Finding, error) {
 	f, err := os.Open(path)
 	if err != nil {
@@ -149,17 +157,28 @@ func LoadFindings(path string) ([]Finding, error) {
 	sc.Buffer(make([]byte, 1<<20), 1<<20)
 	for sc.Scan() {
 		line := strings.TrimSpace(sc.Text())
-		if line == "" || strings.HasPrefix(line, "#") {
-			continue
+		switch {
+		case line == "" || strings.HasPrefix(line, "#"):
+		case strings.HasPrefix(line, "fixed: property="):
+			fs := strings.Fields(strings.TrimPrefix(line, "fixed: property="))
+			if len(fs) < 3 {
+				return nil, fmt.Errorf("known findings: malformed line %q", line)
+			}
+			out = append(out, Finding{Status: "fixed", Property: fs[0], Commit: fs[1], What: strings.Join(fs[2:], " ")})
+		case strings.HasPrefix(line, "finding: property="):
+			m := findingRe.FindStringSubmatch(line)
+			if m == nil {
+				return nil, fmt.Errorf("known findings: malformed line %q", line)
+			}
+			out = append(out, Finding{Status: "finding", Property: m[1], Rule: m[2], Sig: m[3], What: m[4]})
+		default:
+			return nil, fmt.Errorf("known findings: unrecognised line %q", line)
 		}
-		var fd Finding
-		if err := json.Unmarshal([]byte(line), &fd); err != nil {
-			return nil, fmt.Errorf("known_findings: %v in %q", err, line)
-		}
-		out = append(out, fd)
 	}
 	return out, sc.Err()
 }
+
+var findingRe = regexp.MustCompile(`^finding: property=(\S+) rule=(\S+) sig="([^"]*)" (.*)$`)
 
 func findingKey(f Finding) string { return f.Property + "|" + f.Rule + "|" + f.Sig }
 
